@@ -185,3 +185,101 @@ def nested_cases(T, depths=(1, 2, 10, 50, 200)):
         for dp in depths:
             out.append(doc_case(pg.nested_doc(T, lid, dp), "nested-%d" % dp))
     return out
+
+
+# ---------------------------------------------------------------------------------------------
+# SyncML-shaped documents for the tree builder (CDATA rule of <Data>, embedded documents)
+# ---------------------------------------------------------------------------------------------
+
+class _Sml:
+    def __init__(self, T, lid):
+        self.L = T.langs[lid]
+        self.lid = lid
+        self.rows = {}
+        for r in self.L["tags_rows"]:
+            self.rows.setdefault(r[0], r)
+        self.cp = 0
+
+    def elt(self, name, content, attrs=None):
+        r = self.rows[name]
+        sw = None
+        if r[1] != self.cp:
+            sw = r[1]
+            self.cp = r[1]
+        e = {"sw": sw, "tag": ("T", r[2]), "attrs": attrs or [], "content": None}
+        if content is not None:
+            e["content"] = [c() if callable(c) else c for c in content]
+        return ("E", e)
+
+
+def syncml_tree_docs(seed, T, n):
+    """documents whose <Data> elements exercise wbxml_tree_node_get_syncml_data_type"""
+    rng = Rng(seed, 61)
+    out = []
+    types = [b"text/x-vcard", b"text/x-vcalendar", b"text/clear", b"text/directory;profile=vCard", b"text/plain",
+             b"application/vnd.syncml-devinf+wbxml", b"application/vnd.syncml-devinf+xml",
+             b"application/vnd.syncml.dmtnds+wbxml", b"application/vnd.syncml.dmtnds+xml", b"text/x-vcard2", b"",
+             b"application/vnd.syncml-devinf+wbxml", b"application/vnd.syncml-devinf+wbxml", b"application/vnd.syncml.dmtnds+wbxml"]
+    for i in range(n):
+        lid = rng.choice([2201, 2101, 2001])
+        if "Data" not in {r[0] for r in T.langs[lid]["tags_rows"]}:
+            continue
+        S = _Sml(T, lid)
+        ty = rng.choice(types)
+        # an embedded document: DevInf / DM DDF / random
+        emb_l = rng.choice([2202, 2102, 2002, 2204])
+        eg = pg.Gen(rng, T, emb_l, max_depth=2, max_items=3)
+        ed = eg.doc(strict=True)
+        ebytes = pg.serialize(ed)[0]
+        if ed["forced"] or rng.chance(1, 4):
+            ebytes = rng.choice([b"\x03\x01\x6a\x00", bytes(rng.below(256) for _ in range(rng.range(1, 12))), ebytes[: max(1, len(ebytes) // 2)]])
+
+        def data_items():
+            items = []
+            for _ in range(rng.choice([1, 1, 2, 3])):
+                c = rng.below(8)
+                if ty.endswith(b"+wbxml") and c < 5:
+                    items.append(("O", ebytes))
+                elif c < 3:
+                    items.append(("S", rng.choice([b"BEGIN:VCARD", b"x", b"END:VCARD\r\n", b"]]>", b"a<b"])))
+                elif c < 5:
+                    items.append(("O", ebytes if ty.endswith(b"+wbxml") and rng.chance(3, 4) else rng.choice([b"BEGIN:VCARD\r\nEND:VCARD", b"\x01\x02", ebytes])))
+                elif c == 5:
+                    items.append(("N", rng.choice([65, 0xE9, 0x20AC])))
+                elif c == 6 and "Item" in S.rows:
+                    items.append(S.elt("Source" if "Source" in S.rows else "Item", [("S", b"in")]))
+                else:
+                    items.append(("S", b"tail"))
+            return items
+
+        meta = lambda: S.elt("Meta", [lambda: S.elt("Type", [("S", ty)] if ty or rng.chance(1, 2) else [])])
+        where = rng.below(4)          # where the <Meta> sits: in the command, in the item, both, nowhere
+        cmd = rng.choice(["Add", "Replace", "Results", "Put", "Alert"])
+        item_content = []
+        if where in (1, 2):
+            item_content.append(meta)
+        if rng.chance(1, 3):
+            item_content.append(lambda: S.elt("Source", [lambda: S.elt("LocURI", [("S", b"./1")])]))
+        item_content.append(lambda: S.elt("Data", data_items()))
+        if rng.chance(1, 4):
+            item_content.append(lambda: S.elt("Data", data_items()))
+        cmd_content = [lambda: S.elt("CmdID", [("S", b"1")])]
+        if where in (0, 2):
+            cmd_content.append(meta)
+        cmd_content.append(lambda: S.elt("Item", item_content))
+        if rng.chance(1, 5):           # a <Data> directly in the command, a <Meta><Data> ...
+            cmd_content.append(lambda: S.elt("Data", data_items()))
+        body = S.elt("SyncBody", [lambda: S.elt(cmd, cmd_content)])
+        root = S.elt("SyncML", [body])[1]
+        L = T.langs[lid]
+        d = {"lang": lid, "forced": 0, "meta": 0, "ver": rng.choice([2, 3]), "pub": ("N", L["pub_num"]), "charset": 106,
+             "strtbl": b"", "pis_before": [], "pis_after": [], "root": root, "stats": {}, "mode": "num", "kind": "syncml-tree"}
+        if rng.chance(1, 6):
+            # the same shapes with the Data element as root, or with literal-named elements of those names
+            d["root"] = S.elt("Data", data_items())[1]
+        out.append(doc_case(d, "syncml-tree"))
+    return out
+
+
+def tline(c):
+    return "t" + c["line"][1:]
